@@ -19,6 +19,9 @@ import (
 )
 
 // HarnessSpec names one gosym harness and the bounds it runs under.
+// droppedHarnessFiles: virtual path -> empty replacement, for harness files the loader left out
+var droppedHarnessFiles = map[string][]byte{}
+
 type HarnessSpec struct {
 	Pkg        string   // import path suffix below the module
 	Fn         string   // harness function
@@ -153,6 +156,11 @@ func cmdCheck(args []string) int {
 			return 2
 		}
 		c.eng = e
+		for file := range e.Dropped {
+			rel, _ := filepath.Rel(repoDir, file)
+			droppedHarnessFiles[file] = gosym.EmptyHarnessFile(filepath.Join(verifDir(), "harness", rel))
+			fmt.Printf("NOTE property=%s harness file %s does not type-check on this tree and was left out: %s\n", id, rel, e.Dropped[file][0])
+		}
 		for _, h := range hs {
 			c.runHarness(h, *workers)
 		}
@@ -241,6 +249,7 @@ func (c *checkCtx) runHarness(h HarnessSpec, workers int) {
 	e.Cfg.Timeout = 5 * time.Minute
 	if c.tier == "thorough" {
 		e.Cfg.Timeout = 45 * time.Minute
+		e.Cfg.Deep = true
 	}
 	if h.MaxPaths > 0 {
 		e.Cfg.MaxPaths = h.MaxPaths
@@ -381,6 +390,14 @@ func nativeReplay(dir, work string) (bool, string) {
 	for virt := range ov {
 		rel, _ := filepath.Rel(repoDir, virt)
 		replace[virt] = filepath.Join(verifDir(), "harness", rel)
+	}
+	// harness files that were left out of the symbolic run (they no longer type-check on this tree)
+	// are left out of the replay as well
+	for virt, content := range droppedHarnessFiles {
+		f := filepath.Join(work, "dropped-"+strings.ReplaceAll(strings.TrimPrefix(virt, repoDir), "/", "_"))
+		if os.WriteFile(f, content, 0o644) == nil {
+			replace[virt] = f
+		}
 	}
 	pkgName := packageNameOf(filepath.Join(repoDir, in.Package))
 	test := fmt.Sprintf(`//go:build verif
